@@ -435,6 +435,34 @@ def check_word_ops(fx, rep):
         allowed_extra = {"Eq", "Ne"}
         if guard == "shift_lt_256":
             allowed_extra |= {"Ge", "Lt", "Gt", "Le"}
+        if guard == "shift_lt_256":
+            # what the `>= 256` side yields: zero for the logical shifts, copies of the sign bit for the arithmetic one
+            for c in carriers:
+                for cond, br in guards_of(c[4]):
+                    if not any(m.get("k") == "Binary" and m["op"] in ("Ge", "Gt", "Lt", "Le") for m, _ in F.walk(cond)):
+                        continue
+                    iff = next((anc for anc, key in c[4] if anc.get("k") == "If" and anc.get("cond") is cond), None)
+                    if iff is None:
+                        continue
+                    other = iff.get("else") if br == "then" else iff.get("then")
+                    if other is None:
+                        continue
+                    ot = T.term(other, T.Env())
+                    sign_dep = ot[0] == "if" and any(st[0] == "bin" and st[1] in ("Lt", "Ge", "Gt", "Le") for st in T.subterms(ot[1])) and any("MINUS_ONE" in str(st) or "MAX" in str(st) or st == ("un", "Neg", ("lit", "1")) for st in T.subterms(ot))
+                    if signed == "yes":
+                        rep.oblige(sign_dep, "R09.3", f"out-of-range:{op}", F.loc(other["span"]), f"known-word `{op}`: for shift amounts >= 256 the result must be all copies of the sign bit (-1 for a negative value, 0 otherwise); the out-of-range branch yields `{T.short(ot)[:60]}`")
+                    else:
+                        zero = (ot[0] == "call" and str(ot[1]).endswith("::zero")) or (ot[0] == "path" and str(ot[1]).endswith("ZERO")) or ot == ("lit", "0") or (ot[0] == "call" and any(str(x).endswith("ZERO") for x in map(str, ot[2])))
+                        rep.oblige(zero, "R09.3", f"out-of-range:{op}", F.loc(other["span"]), f"known-word `{op}`: for shift amounts >= 256 the result must be zero; the out-of-range branch yields `{T.short(ot)[:60]}`")
+        if guard == "full_exponent":
+            # square-and-multiply over the whole exponent: the loop leaves only through its own condition (an early exit skips
+            # the multiplications that the remaining exponent bits still owe)
+            for lp, lps in F.exprs(hir["value"], "Loop"):
+                exits = [x for x, xps in F.walk(lp["body"]) if x.get("k") in ("Break", "Ret") and not x.get("exp")]
+                rep.oblige(not exits, "R09.3", f"loop-exit:{op}", F.loc(exits[0]["span"]) if exits else F.loc(lp["span"]), f"known-word `{op}`: the exponentiation loop has an exit besides its own condition: the exponent bits that have not been consumed yet still owe their multiplications, so the partial product is not the power")
+                names = [m for m in (x[0] for x in prim_sites)]
+                muls = [x for x in prim_sites if x[0] == "wrapping_mul"]
+                rep.oblige(len(muls) == 2, "R09.3", f"loop-shape:{op}", F.loc(lp["span"]), f"known-word `{op}`: square-and-multiply needs exactly the conditional multiply of the result and the squaring of the base (found {len(muls)} multiplications)")
         if guard == "full_exponent":
             allowed_extra |= {"BitAnd", "Shr", "Ne", "Eq", "Gt"}
         for s in prim_sites:
